@@ -106,6 +106,12 @@ func c08One(c *Ctx, g *Group, kds []mKeyDesc, layout string, idx int) {
 	// every descriptor of this metadata gets the layout; the routed one decides
 	for i := range in.md.Descs {
 		in.md.Descs[i].KDs = kds
+		for j := range in.md.Descs[i].ACS { // keep unrelated reasons for "nothing emitted" out of this property
+			in.md.Descs[i].ACS[j].Binding = bPost
+		}
+	}
+	if _, ok := hashByMethod[in.cfg.Method]; !ok {
+		in.cfg.Method = ""
 	}
 	var markers []string
 	in.sess, markers = markerSession(r)
